@@ -214,8 +214,12 @@ class Report:
             entry = self.findings[fid]
             print(f"KNOWN-FINDING: property={self.prop} {fid}: {entry['what']} [{count} explored cases]")
         # violations -> replay files
+        if os.environ.get("VERIF_DUMP"):
+            with open(os.environ["VERIF_DUMP"], "w") as f:
+                for case, v in self.violations:
+                    f.write(json.dumps(jsonable({"case": case, "violation": v})) + "\n")
         paths = []
-        vdir = os.path.join(VERIF, "replays", self.prop)
+        vdir = os.path.join(os.environ.get("VERIF_REPLAY_DIR", os.path.join(VERIF, "replays")), self.prop)
         by_what = collections.OrderedDict()
         for case, v in self.violations:
             by_what.setdefault(v.get("kind") or v.get("what", "?").split(":")[0][:40], []).append((case, v))
@@ -262,7 +266,7 @@ class Report:
             "wall_s": round(wall, 2),
             "violations": len(self.violations),
         }
-        edir = os.path.join(VERIF, "evidence")
+        edir = os.environ.get("VERIF_EVIDENCE_DIR", os.path.join(VERIF, "evidence"))
         os.makedirs(edir, exist_ok=True)
         epath = os.path.join(edir, f"{self.prop}.json")
         with open(epath, "w") as f:
